@@ -78,6 +78,17 @@ def run(pid, tier, seed):
     log("[V] wire-sessions: %d runs, %d events, strict accepted %d, rejected %d" % (vc["runs"], vc["events"], vc["strict_accepted"], len(vc["violations"])))
     _viols(v, vc, "wire-sessions", lambda m: "roles=%s script=%s" % (m.get("roles"), json.dumps(m.get("script"))))
     parts["wire-sessions"] = (sc, vc)
+    # (d) "bounded" through the node's own listener: a real NodeServer with a small max_inbound_frame_size, raw TCP
+    # connections on the loopback interface, scripted byte streams; judged on what a peer sees (answer / connection closed)
+    tr = os.path.join(w, "wire-tcp.ndjson")
+    st = vlib.harness(["wire-tcp", "--out", tr, "--tier", tier, "--seed", seed])
+    if st.get("bad_runs") or not st.get("runs"):
+        raise vlib.ToolError("wire-tcp: %d connections could not be made (%d runs)" % (st.get("bad_runs", 0), st.get("runs", 0)))
+    vt = vlib.validate_batch("Trace_FramingTcp", "Trace_FramingTcp.cfg", tr, "wiretcp_" + pid, start_lenient=True)
+    log("[V] wire-tcp: %d runs, %d events, accepted on observations %d, rejected %d" % (vt["runs"], vt["events"], vt["lenient_accepted"], len(vt["violations"])))
+    _viols(v, vt, "wire-tcp", lambda m: "frames=%s eof=%s" % (m.get("frames"), m.get("eof")))
+    vt["strict_accepted"] = vt["lenient_accepted"]      # (counted as validated traces below; this family has no internal points)
+    parts["wire-tcp"] = (st, vt)
     # extras (evidence only; the claim stays scoped): bounded enumeration through a derived decoder, boundary round trips
     extra = vlib.harness(["codec-extra"])
     log("[X] codec extras: %d decoder inputs (%d ok, %d err, %d panics), %d round trips (%d failures)" % (
@@ -122,7 +133,8 @@ def replay(pid, path):
             f.write(json.dumps(e, separators=(",", ":")) + "\n")
     mod = {"framing": ("Trace_Framing", "Trace_Framing.cfg"), "decode": ("Trace_DecodeDrop", "Trace_DecodeDrop.cfg"),
            "decode-tl": ("Trace_DecodeDrop", "Trace_DecodeDrop.cfg"),
-           "wire-sessions": ("Trace_ClusterAuth", "Trace_ClusterAuth.cfg")}[rp.get("family", "framing")]
+           "wire-sessions": ("Trace_ClusterAuth", "Trace_ClusterAuth.cfg"),
+           "wire-tcp": ("Trace_FramingTcp", "Trace_FramingTcp.cfg")}[rp.get("family", "framing")]
     vb = vlib.validate_batch(mod[0], mod[1], out, "replay_" + pid)
     if vb["violations"]:
         log("recorded trace is rejected by the specification at: %s" % (vb["violations"][0].get("lenient_event") or vb["violations"][0].get("strict_event")))
